@@ -860,3 +860,90 @@ V(id='c40-benign-copy-returns-self', prop='C40', file='mpmath/ctx_mp_python.py',
   old="    def __getstate__(self): return to_pickable(self._mpf_)",
   new="    def __copy__(self): return self\n    def __getstate__(self): return to_pickable(self._mpf_)",
   expect='silent')
+
+# ---------------------------------------------------------------- C43 -------
+V(id='c43-tanh-complex-tan', prop='C43', file='mpmath/math2.py',
+  old="tanh = _mathfun_real(math.tanh, cmath.tanh)", new="tanh = _mathfun_real(math.tanh, cmath.tan)",
+  expect='fire:F-R2:tanh')
+V(id='c43-sqrt-on-fast-path', prop='C43', file='mpmath/math2.py',
+  old="sqrt = _mathfun(math_sqrt, cmath.sqrt)", new="sqrt = _mathfun_real(math_sqrt, cmath.sqrt)",
+  expect='fire:F-R3:sqrt')
+V(id='c43-acos-on-fast-path', prop='C43', file='mpmath/math2.py',
+  old="acos = _mathfun(math.acos,", new="acos = _mathfun_real(math.acos,",
+  expect='fire:F-R3:acos')
+V(id='c43-cbrt-math-cbrt', prop='C43', file='mpmath/math2.py',
+  old="cbrt = _mathfun(lambda x: x**(1./3), lambda z: z**(1./3))",
+  new="cbrt = _mathfun(math.cbrt, lambda z: z**(1./3))",
+  expect='fire:F-R3:cbrt')
+V(id='c43-wrapper-valueerror-only', prop='C43', file='mpmath/math2.py',
+  old="""        try:
+            return f_real(float(x))
+        except (TypeError, ValueError):
+            return f_complex(complex(x))""",
+  new="""        try:
+            return f_real(float(x))
+        except TypeError:
+            return f_complex(complex(x))""",
+  expect='fire:F-R1:_mathfun.f')
+V(id='c43-wrapper-real-outside-try', prop='C43', file='mpmath/math2.py',
+  old="""        if type(x) is complex:
+            return f_complex(x)
+        try:
+            return f_real(float(x))
+        except (TypeError, ValueError):
+            return f_complex(complex(x))""",
+  new="""        if type(x) is complex:
+            return f_complex(x)
+        if type(x) is float:
+            return f_real(x)
+        try:
+            return f_real(float(x))
+        except (TypeError, ValueError):
+            return f_complex(complex(x))""",
+  expect='fire:F-R1:_mathfun.f')
+V(id='c43-slot-swapped', prop='C43', file='mpmath/ctx_fp.py',
+  old="    sinh = staticmethod(math2.sinh)", new="    sinh = staticmethod(math2.cosh)",
+  expect='fire:F-R4:FPContext')
+V(id='c43-mpc-is-float', prop='C43', file='mpmath/ctx_fp.py',
+  old="    mpc = complex", new="    mpc = float", expect='fire:F-R4:FPContext')
+V(id='c43-bare-cmath-acos', prop='C43', file='mpmath/math2.py',
+  old="acos = _mathfun(math.acos, lambda z: cmath.acos(_real_axis_cut(z)))",
+  new="acos = _mathfun(math.acos, cmath.acos)", expect='fire:F-R6:acos')
+V(id='c43-cospi-complex-quadrant-sign', prop='C43', file='mpmath/math2.py',
+  old="    if n == 1: return -cmath.sin(z)\n    if n == 2: return -cmath.cos(z)",
+  new="    if n == 1: return cmath.sin(z)\n    if n == 2: return -cmath.cos(z)",
+  expect='fire:F-R2:cospi')
+V(id='c43-sinpi-both-wrong-quadrant', prop='C43', file='mpmath/math2.py',
+  edits=[("    if n == 2: return -math.sin(r)\n    if n == 3: return -math.cos(r)",
+          "    if n == 2: return -math.sin(r)\n    if n == 3: return math.cos(r)"),
+         ("    if n == 2: return -cmath.sin(z)\n    if n == 3: return -cmath.cos(z)",
+          "    if n == 2: return -cmath.sin(z)\n    if n == 3: return cmath.cos(z)")],
+  expect='fire:F-R2:sinpi')
+V(id='c43-bernoulli-raw-tuple', prop='C43', file='mpmath/ctx_fp.py',
+  old="        cache[n] = to_float(mpf_bernoulli(n, 53, 'n'), strict=True)",
+  new="        cache[n] = mpf_bernoulli(n, 53, 'n')", expect='fire:F-R5:bernoulli')
+V(id='c43-cut-helper-changes-value', prop='C43', file='mpmath/math2.py',
+  old="            return complex(z.real, -0.0)", new="            return complex(-z.real, -0.0)",
+  expect='fire:F-R2')
+V(id='c43-benign-rename-lambda-params', prop='C43', file='mpmath/math2.py',
+  edits=[("cbrt = _mathfun(lambda x: x**(1./3), lambda z: z**(1./3))",
+          "cbrt = _mathfun(lambda t: t**(1./3), lambda w: w**(1./3))"),
+         ("cos_sin = _mathfun_real(lambda x: (math.cos(x), math.sin(x)),\n                        lambda z: (cmath.cos(z), cmath.sin(z)))",
+          "cos_sin = _mathfun_real(lambda a: (math.cos(a), math.sin(a)),\n                        lambda b: (cmath.cos(b), cmath.sin(b)))")],
+  expect='silent')
+V(id='c43-benign-cut-helper-renamed', prop='C43', file='mpmath/math2.py',
+  old="_real_axis_cut", new="_below_the_cut", all=True, expect='silent')
+V(id='c43-benign-wrapper-catches-more', prop='C43', file='mpmath/math2.py',
+  old="""        try:
+            return f_real(float(x))
+        except (TypeError, ValueError):
+            return f_complex(complex(x))""",
+  new="""        try:
+            return f_real(float(x))
+        except (TypeError, ValueError, AttributeError):
+            return f_complex(complex(x))""",
+  expect='silent')
+V(id='c43-benign-new-total-binding', prop='C43', file='mpmath/math2.py',
+  old="tanh = _mathfun_real(math.tanh, cmath.tanh)",
+  new="tanh = _mathfun_real(math.tanh, cmath.tanh)\nasinh = _mathfun_real(math.asinh, cmath.asinh)",
+  expect='silent')
